@@ -402,7 +402,7 @@ Lemma bf_setup_shape : forall p c f sa skw w w' o,
 Proof.
   intros p c f sa skw w w' o H. unfold bf_setup in H. minvc H.
   - eapply bf_reuse_shape; eassumption.
-  - unfold bf_claim in H. minvc H.
+  - match goal with E : bf_claim _ _ = _ |- _ => unfold bf_claim in E; minvc E end.
 Qed.
 
 Lemma sb_setup_shape : forall f sa skw w w' o,
@@ -558,4 +558,262 @@ Proof.
   exfalso. apply sb_setup_quiet in Hs. destruct Hs as [Hs _].
   apply sb_rebuild_invokes in H; [lia|].
   intros u u' r E. eapply Hfn; exact E.
+Qed.
+
+(* ================================================================== *)
+(* 2a. Success after running the function: the target is a regular     *)
+(*     file and the value is JSON-normalised                           *)
+(* ================================================================== *)
+
+Lemma file_comparison_result_file : forall p c w w' v,
+  file_comparison_result p c w = (w', inl v) -> isfile (w_fs w') p = true.
+Proof.
+  intros p c w w' v H. destruct c; cbn [file_comparison_result] in H.
+  - unfold file_metadata in H. destruct (lookup (w_fs w) p) as [[g|]|] eqn:E; inversion H; subst.
+    apply isfile_lookup. eauto.
+  - unfold file_hash in H. cbv zeta in H.
+    repeat dm H; inversion H; subst; cbn [w_fs set_hash];
+      first [ assumption | apply isfile_lookup; eauto ].
+Qed.
+
+Lemma noneable_cmp_file : forall p c w w' v,
+  noneable_cmp p c w = (w', inl v) -> v <> PNone -> isfile (w_fs w') p = true.
+Proof.
+  intros p c w w' v H Hv. unfold noneable_cmp in H. apply catch_inv in H.
+  destruct H as [(a & E & R) | (w1 & e & E & Hh)].
+  - eapply file_comparison_result_file; exact E.
+  - destruct (is_os_class XFileNotFound e || is_os_class XIsADirectory e || is_os_class XNotADirectory e);
+      inversion Hh; subst. contradiction.
+Qed.
+
+(* the statement in terms of the stages: the lookup missed (setup returned None) *)
+Theorem bf_fresh_success_file : forall p c f sa skw fn w1 w' v o,
+  bf_rebuild p c f sa skw fn w1 = (w', (inl v, Some o)) ->
+  isfile (w_fs w') p = true /\ sanitized v = true /\
+  op_ret o = v /\ op_raised o = false /\ op_setup_failed o = false.
+Proof.
+  intros p c f sa skw fn w1 w' v o H. unfold bf_rebuild in H.
+  destruct (fn p sa skw (bf_invoke_world p f sa skw w1)) as [w3 [res subs]].
+  apply bf_finish_success in H.
+  destruct H as (v0 & cmp & w4 & _ & Hsan & Hcmp & Hne & Ho & Hw).
+  split.
+  - rewrite Hw. cbn [w_fs set_new]. eapply noneable_cmp_file; eassumption.
+  - split; [eapply sanitize_sanitized; exact Hsan|]. rewrite Ho. repeat split; reflexivity.
+Qed.
+
+Theorem bf_invoked_success_file : forall p c f a kw fn w w' v o,
+  m_build_file p c f a kw fn w = (w', (inl v, Some o)) ->
+  invocations (w_log w) < invocations (w_log w') ->      (* the function was run *)
+  body_log_mono (fun u => fn p (match sanitize a with Some s => s | None => PNone end)
+                               (match sanitize kw with Some s => s | None => PNone end) u) ->
+  isfile (w_fs w') p = true /\ sanitized v = true /\
+  op_ret o = v /\ op_raised o = false /\ op_setup_failed o = false.
+Proof.
+  intros p c f a kw fn w w' v o H Hlt _. rewrite m_build_file_unfold in H.
+  destruct (sanitize a) as [sa|]; [|discriminate H].
+  destruct (sanitize kw) as [skw|]; [|discriminate H].
+  destruct (bf_setup p c f sa skw w) as [w1 [[[o1|[e o1]]|]|e]] eqn:Hs; try discriminate H.
+  - inversion H; subst. apply bf_setup_quiet in Hs. destruct Hs as [Hs _]. lia.
+  - eapply bf_fresh_success_file; exact H.
+Qed.
+
+(* ================================================================== *)
+(* 3. Failure of the function: the exception is the outcome, the       *)
+(*    target is absent, the record is marked raised                    *)
+(* ================================================================== *)
+
+Definition bd_key_error : exn := XCrash "KeyError in BuildDirs.error_building_file".
+
+Lemma try_to_remove_file_ok : forall p w w' r,
+  try_to_remove_file p w = (w', r) -> r = inl tt /\ w_bd w' = w_bd w.
+Proof.
+  intros p w w' r H. unfold try_to_remove_file, bind, get in H.
+  destruct (isfile (w_fs w) p); [|inversion H; subst; split; reflexivity].
+  unfold catch in H.
+  match type of H with (match ?X with _ => _ end) = _ => destruct X as [w1 [u|e]] eqn:E end.
+  - inversion H; subst. destruct u. split; [reflexivity|].
+    unfold effect in E. cbv zeta in E. repeat dm E; inversion E; subst; reflexivity.
+  - unfold effect in E. cbv zeta in E.
+    repeat dm E; inversion E; subst; cbn [is_os] in H; inversion H; subst; split; reflexivity.
+Qed.
+
+Lemma try_to_remove_file_absent : forall p w w' r,
+  w_faults w = [] -> try_to_remove_file p w = (w', r) -> isfile (w_fs w') p = false.
+Proof.
+  intros p w w' r Hf H. unfold try_to_remove_file, bind, get in H.
+  destruct (isfile (w_fs w) p) eqn:Ei; [|inversion H; subst; exact Ei].
+  unfold catch, effect in H. cbv zeta in H. rewrite Hf in H. cbn [existsb] in H.
+  cbn [w_fs set_effects] in H.
+  apply isfile_lookup in Ei. destruct Ei as [g Eg].
+  destruct p as [|n d]; [cbn in Eg; discriminate Eg|].
+  unfold remove in H. rewrite Eg in H. inversion H; subst. cbn [w_fs set_log set_fs].
+  unfold isfile. rewrite lookup_upd_eq by discriminate. reflexivity.
+Qed.
+
+(* the release part of the error path leaves the tree alone *)
+Lemma bf_release_fs : forall p o w w' r,
+  (m_bd_error p ;;; new_finish_building_file p o) w = (w', r) -> w_fs w' = w_fs w.
+Proof.
+  intros p o w w' r H. apply bind_inv in H.
+  destruct H as [(w1 & u & E1 & H) | (e & E1 & _)].
+  - apply m_bd_error_svb in E1. destruct E1 as (F & _).
+    unfold new_finish_building_file, modify in H. inversion H; subst. cbn [w_fs set_new]. exact F.
+  - apply m_bd_error_svb in E1. destruct E1 as (F & _). exact F.
+Qed.
+
+Lemma bf_fail_absent : forall p c f sa skw subs e w w' r oo,
+  w_faults w = [] -> bf_fail p c f sa skw subs e w = (w', (r, oo)) -> isfile (w_fs w') p = false.
+Proof.
+  intros p c f sa skw subs e w w' r oo Hf H. unfold bf_fail in H. cbv zeta in H.
+  match type of H with (match ?X with _ => _ end) = _ => destruct X as [w1 x] eqn:E end.
+  assert (W : w1 = w') by (destruct x; inversion H; reflexivity). subst w1. clear H.
+  apply bind_inv in E. destruct E as [(wa & u & E1 & E2) | (e1 & E1 & _)].
+  - apply bf_release_fs in E2. rewrite E2. eapply try_to_remove_file_absent; eassumption.
+  - eapply try_to_remove_file_absent; eassumption.
+Qed.
+
+(* which exception comes out of the error path: the given one, unless releasing the
+   reservation of the parent directories crashes *)
+Lemma bf_fail_outcome : forall p c f sa skw subs e w w' r oo,
+  bf_fail p c f sa skw subs e w = (w', (r, oo)) ->
+  r = inr e \/ (bd_error (w_bd w) p = None /\ r = inr bd_key_error).
+Proof.
+  intros p c f sa skw subs e w w' r oo H. unfold bf_fail in H. cbv zeta in H.
+  match type of H with (match ?X with _ => _ end) = _ => destruct X as [w1 [u|e1]] eqn:E end.
+  - inversion H; subst. left. reflexivity.
+  - inversion H; subst. right. apply bind_inv in E.
+    destruct E as [(wa & u & E1 & E2) | (e2 & E1 & _)].
+    + apply try_to_remove_file_ok in E1. destruct E1 as [_ Hbd].
+      apply bind_inv in E2. destruct E2 as [(wb & u2 & _ & E3) | (e3 & E2 & R)].
+      * unfold new_finish_building_file, modify in E3. discriminate E3.
+      * inversion R; subst e3. unfold m_bd_error in E2. rewrite Hbd in E2.
+        destruct (bd_error (w_bd w) p); inversion E2; subst. split; reflexivity.
+    + apply try_to_remove_file_ok in E1. destruct E1 as [E1 _]. discriminate E1.
+Qed.
+
+Lemma bf_finish_failure : forall p c f sa skw res subs w3 w' e oo,
+  w_faults w3 = [] ->
+  bf_finish p c f sa skw res subs w3 = (w', (inr e, oo)) ->
+  isfile (w_fs w') p = false /\ oo = Some (OBuildFile p c f sa skw subs PNone PNone true false).
+Proof.
+  intros p c f sa skw res subs w3 w' e oo Hf H. unfold bf_finish in H.
+  assert (F : forall e0 w0, w_faults w0 = [] -> bf_fail p c f sa skw subs e0 w0 = (w', (inr e, oo)) ->
+              isfile (w_fs w') p = false /\ oo = Some (OBuildFile p c f sa skw subs PNone PNone true false)).
+  { intros e0 w0 Hf0 H0. split; [eapply bf_fail_absent; eassumption|].
+    apply bf_fail_spec in H0. tauto. }
+  destruct res as [v|e0]; [|eapply F; eassumption].
+  destruct (sanitize v) as [sv|]; [|eapply F; eassumption].
+  destruct (noneable_cmp p c w3) as [w4 [cmp|e1]] eqn:E.
+  - assert (Hf4 : w_faults w4 = [])
+      by (pose proof (noneable_cmp_svb p c w3 w4 _ E) as SV; apply svb_quiet in SV;
+          destruct SV as [_ SV]; rewrite SV; exact Hf).
+    destruct cmp; try (eapply F; eassumption).
+    all: cbv zeta in H; unfold new_finish_building_file, modify in H; discriminate H.
+  - assert (Hf4 : w_faults w4 = [])
+      by (pose proof (noneable_cmp_svb p c w3 w4 _ E) as SV; apply svb_quiet in SV;
+          destruct SV as [_ SV]; rewrite SV; exact Hf).
+    eapply F; eassumption.
+Qed.
+
+Theorem bf_failure_target_absent : forall p c f a kw fn w w' e o,
+  w_faults w = [] ->
+  (forall p' a' k' u u' r, fn p' a' k' u = (u', r) ->
+     w_faults u' = w_faults u /\ invocations (w_log u) <= invocations (w_log u')) ->
+  m_build_file p c f a kw fn w = (w', (inr e, Some o)) ->
+  invocations (w_log w) < invocations (w_log w') ->
+  isfile (w_fs w') p = false /\ op_raised o = true /\ op_setup_failed o = false.
+Proof.
+  intros p c f a kw fn w w' e o Hf Hfn H Hlt. rewrite m_build_file_unfold in H.
+  destruct (sanitize a) as [sa|]; [|discriminate H].
+  destruct (sanitize kw) as [skw|]; [|discriminate H].
+  destruct (bf_setup p c f sa skw w) as [w1 [[[o1|[e1 o1]]|]|e1]] eqn:Hs; try discriminate H.
+  - inversion H; subst. apply bf_setup_quiet in Hs. destruct Hs as [Hs _]. lia.
+  - apply bf_setup_quiet in Hs. destruct Hs as [_ Hs].
+    unfold bf_rebuild in H.
+    destruct (fn p sa skw (bf_invoke_world p f sa skw w1)) as [w3 [res subs]] eqn:E.
+    apply Hfn in E. destruct E as [E _]. unfold bf_invoke_world in E. cbn [w_faults set_log] in E.
+    apply bf_finish_failure in H; [|congruence].
+    destruct H as [Hfile Ho]. inversion Ho; subst o. split; [exact Hfile | split; reflexivity].
+  - inversion H; subst. apply bf_setup_quiet in Hs. destruct Hs as [Hs _]. lia.
+Qed.
+
+(* the exception raised by the function is the outcome of build_file, unless releasing
+   the reservation crashes (KeyError in BuildDirs.error_building_file, i.e. [bd_error]
+   does not know the target) *)
+Theorem bf_user_exception_propagates : forall p c f a kw fn w sa skw w1 u' e0 subs,
+  sanitize a = Some sa -> sanitize kw = Some skw ->
+  bf_setup p c f sa skw w = (w1, inl None) ->                     (* the lookup missed *)
+  fn p sa skw (bf_invoke_world p f sa skw w1) = (u', (inr e0, subs)) ->   (* the body raised e0 *)
+  exists w' e,
+    m_build_file p c f a kw fn w =
+      (w', (inr e, Some (OBuildFile p c f sa skw subs PNone PNone true false))) /\
+    (e = e0 \/ (bd_error (w_bd u') p = None /\ e = bd_key_error)).
+Proof.
+  intros p c f a kw fn w sa skw w1 u' e0 subs Ha Hk Hs Hb.
+  rewrite m_build_file_unfold, Ha, Hk, Hs. unfold bf_rebuild. rewrite Hb.
+  cbn [bf_finish].
+  destruct (bf_fail p c f sa skw subs e0 u') as [w' [r oo]] eqn:E.
+  pose proof (bf_fail_spec _ _ _ _ _ _ _ _ _ _ _ E) as (Ho & [e' He] & _).
+  pose proof (bf_fail_outcome _ _ _ _ _ _ _ _ _ _ _ E) as Hout.
+  subst r oo. exists w', e'. split; [reflexivity|].
+  destruct Hout as [X | [B X]]; inversion X; subst; [left | right]; auto.
+Qed.
+
+(* the other two ways of failing: a value that is not JSON, a target that was not created *)
+Theorem bf_bad_value_type_error : forall p c f a kw fn w sa skw w1 u' v subs,
+  sanitize a = Some sa -> sanitize kw = Some skw ->
+  bf_setup p c f sa skw w = (w1, inl None) ->
+  fn p sa skw (bf_invoke_world p f sa skw w1) = (u', (inl v, subs)) ->
+  sanitize v = None ->
+  exists w' e,
+    m_build_file p c f a kw fn w =
+      (w', (inr e, Some (OBuildFile p c f sa skw subs PNone PNone true false))) /\
+    (e = XType \/ (bd_error (w_bd u') p = None /\ e = bd_key_error)).
+Proof.
+  intros p c f a kw fn w sa skw w1 u' v subs Ha Hk Hs Hb Hv.
+  rewrite m_build_file_unfold, Ha, Hk, Hs. unfold bf_rebuild. rewrite Hb.
+  cbn [bf_finish]. rewrite Hv.
+  destruct (bf_fail p c f sa skw subs XType u') as [w' [r oo]] eqn:E.
+  pose proof (bf_fail_spec _ _ _ _ _ _ _ _ _ _ _ E) as (Ho & [e' He] & _).
+  pose proof (bf_fail_outcome _ _ _ _ _ _ _ _ _ _ _ E) as Hout.
+  subst r oo. exists w', e'. split; [reflexivity|].
+  destruct Hout as [X | [B X]]; inversion X; subst; [left | right]; auto.
+Qed.
+
+Theorem bf_not_created_fails : forall p c f a kw fn w sa skw w1 u' v subs,
+  sanitize a = Some sa -> sanitize kw = Some skw ->
+  bf_setup p c f sa skw w = (w1, inl None) ->
+  fn p sa skw (bf_invoke_world p f sa skw w1) = (u', (inl v, subs)) ->
+  isfile (w_fs u') p = false ->
+  exists w' e,
+    m_build_file p c f a kw fn w =
+      (w', (inr e, Some (OBuildFile p c f sa skw subs PNone PNone true false))).
+Proof.
+  intros p c f a kw fn w sa skw w1 u' v subs Ha Hk Hs Hb Hnf.
+  rewrite m_build_file_unfold, Ha, Hk, Hs. unfold bf_rebuild. rewrite Hb.
+  destruct (bf_finish p c f sa skw (inl v) subs u') as [w' [[v'|e] oo]] eqn:E.
+  - exfalso.
+    assert (Ho : exists o, oo = Some o).
+    { unfold bf_finish in E.
+      assert (F : forall e0 w0, bf_fail p c f sa skw subs e0 w0 = (w', (inl v', oo)) -> exists o, oo = Some o).
+      { intros e0 w0 H0. apply bf_fail_spec in H0. destruct H0 as (-> & _). eauto. }
+      destruct (sanitize v); [|eapply F; eassumption].
+      destruct (noneable_cmp p c u') as [w4 [cmp|e1]]; [|eapply F; eassumption].
+      destruct cmp; try (eapply F; eassumption).
+      all: cbv zeta in E; unfold new_finish_building_file, modify in E; inversion E; eauto. }
+    destruct Ho as [o ->]. apply bf_finish_success in E.
+    destruct E as (v0 & cmp & w4 & _ & _ & Hcmp & Hne & _ & _).
+    pose proof (noneable_cmp_file _ _ _ _ _ Hcmp Hne) as Hfile.
+    pose proof (noneable_cmp_svb p c u' w4 _ Hcmp) as (Hfs & _).
+    rewrite Hfs in Hfile. congruence.
+  - assert (Ho : oo = Some (OBuildFile p c f sa skw subs PNone PNone true false)).
+    { unfold bf_finish in E.
+      assert (F : forall e0 w0, bf_fail p c f sa skw subs e0 w0 = (w', (inr e, oo)) ->
+                  oo = Some (OBuildFile p c f sa skw subs PNone PNone true false)).
+      { intros e0 w0 H0. apply bf_fail_spec in H0. tauto. }
+      destruct (sanitize v); [|eapply F; eassumption].
+      destruct (noneable_cmp p c u') as [w4 [cmp|e1]]; [|eapply F; eassumption].
+      destruct cmp; try (eapply F; eassumption).
+      all: cbv zeta in E; unfold new_finish_building_file, modify in E; discriminate E. }
+    subst oo. eauto.
 Qed.
